@@ -91,7 +91,7 @@ func mutexField(v ssa.Value, l lockID) bool {
 	if !ok {
 		return false
 	}
-	fr, okf := fieldRefOf(fa.X.Type(), fa.Field)
+	fr, okf := fieldRefOfAddr(fa)
 	return okf && fr.Pkg == l.Pkg && fr.Type == l.Type && fr.Field == l.Field
 }
 
@@ -157,7 +157,7 @@ func guardedAccess(in ssa.Instruction, spec guardSpec) (string, bool, bool) {
 	if !ok {
 		return "", false, false
 	}
-	fr, okf := fieldRefOf(fa.X.Type(), fa.Field)
+	fr, okf := fieldRefOfAddr(fa)
 	if !okf || fr.Pkg != spec.pkg {
 		return "", false, false
 	}
